@@ -177,4 +177,5 @@ def run(ctx):
     maps = c04.spectral_maps(ctx)
     c04.back_transforms(ctx, maps)
     c11.shift_invert_typestate(ctx)
+    c11.stored_matrix_consumers(ctx)
     rvalue_operator_lifetime(ctx)
